@@ -12,7 +12,8 @@ RULE = ("BFS over all factor sequences of length <= L over the factor alphabet f
         "(found by introspection) and compositions of them; state = the numeric parameter vector of the transform and its members "
         "(og_* values are checked to be immutable instead); oracles: path independence (state after any path ending in f equals "
         "fresh.f), f=1 restores the constructed state, f=0 is the weakest setting, every bound moves monotonically; observable "
-        "side via ChoiceRng at the range ends; scheduled transform: W simulated round-robin workers x batch sizes x schedule "
+        "histories of length <= 3 over (node, factor) that scale nested members directly as well as through their containers - every "
+        "node must end at the last factor that reached it; observable side via ChoiceRng at the range ends; scheduled transform: W simulated round-robin workers x batch sizes x schedule "
         "lengths x three budget kinds, strength per sample of global batch b == schedule value at b; transitions = scale/call steps")
 
 NUM = (int, float)
@@ -99,6 +100,26 @@ def og_params(obj, prefix="", seen=None):
     return out
 
 
+def nodes(obj, prefix="", seen=None):
+    """{params()-prefix: KDTransform} of a transform and all nested members (the root has prefix '')."""
+    from kappadata.transforms.base.kd_transform import KDTransform
+    seen = seen if seen is not None else set()
+    if id(obj) in seen:
+        return {}
+    seen.add(id(obj))
+    out = {prefix: obj} if isinstance(obj, KDTransform) else {}
+    for k, v in sorted(vars(obj).items()):
+        if k in ("rng", "logger"):
+            continue
+        if isinstance(v, KDTransform):
+            out.update(nodes(v, prefix + k + ".", seen))
+        elif isinstance(v, list) and any(isinstance(x, KDTransform) for x in v):
+            for i, x in enumerate(v):
+                if isinstance(x, KDTransform):
+                    out.update(nodes(x, f"{prefix}{k}[{i}].", seen))
+    return out
+
+
 def build(spec):
     kind = spec[0]
     if kind == "leaf":
@@ -165,7 +186,10 @@ def check_scaling(spec, factors, maxlen, p):
         except Exception as e:
             bad(f"scale_strength_raises:{type(e).__name__}", f"scale_strength({f}): {e!r}")
             return
-        ref[f] = params(t)
+        ref[f] = {k: v for k, v in params(t).items() if k in base}  # bookkeeping attributes that appear later are not parameters
+        if not set(base) <= set(ref[f]):
+            bad("parameter_disappeared", f"after scale_strength({f}): {sorted(set(base) - set(ref[f]))}")
+            return
         p.transitions += 1
         if og_params(t) != og0:
             bad("og_values_mutated", f"after scale_strength({f})")
@@ -212,17 +236,64 @@ def check_scaling(spec, factors, maxlen, p):
                 for g in path + (f,):
                     t.scale_strength(g)
                     p.transitions += 1
-                st = params(t)
+                st = {k: v for k, v in params(t).items() if k in base}
                 p.traces += 1
                 key = tuple(sorted(st.items()))
                 p.state((nm, key))
-                if any(not close(st[k], ref[f][k]) for k in st):
+                if set(st) != set(base):
+                    bad("parameter_disappeared", f"after factors {path + (f,)}: {sorted(set(base) - set(st))}")
+                elif any(not close(st[k], ref[f][k]) for k in st):
                     k = [k for k in st if not close(st[k], ref[f][k])][0]
                     bad("compounds_over_factor_history", f"after factors {path + (f,)}: {k} = {st[k]}, fresh.scale({f}) gives {ref[f][k]}", k)
                 if og_params(t) != og0:
                     bad("og_values_mutated", f"after factors {path + (f,)}")
                 nxt.append(path + (f,))
         frontier = nxt
+    # histories that also scale members directly (not only through the root): every node's parameters must be those of the
+    # last factor that reached it - given to the node itself or to any container above it
+    tree = nodes(fresh)
+    if len(tree) > 1:
+        tf = [f for f in (0.0, 0.5, 1.0) if f in ref]
+        alphabet = [(pre, f) for pre in sorted(tree) for f in tf]
+        tlen = min(maxlen, 3)
+        if len(alphabet) ** tlen > 4000:
+            tlen = 2
+            p.count("targeted_history_length_reduced")
+        owner = {k: max((pre for pre in tree if k.startswith(pre)), key=len) for k in base}
+        for L in range(2, tlen + 1):
+            for hist in itertools.product(alphabet, repeat=L):
+                if all(pre == "" for pre, _ in hist):
+                    continue  # root-only histories: the BFS above
+                t = build(spec)
+                tn = nodes(t)
+                try:
+                    for pre, f in hist:
+                        tn[pre].scale_strength(f)
+                        p.transitions += 1
+                except Exception as e:
+                    bad(f"scale_strength_raises:{type(e).__name__}", f"history {hist}: {e!r}")
+                    break
+                st = params(t)
+                p.traces += 1
+                wrong = None
+                for k in base:
+                    last = None
+                    for pre, f in hist:
+                        if owner[k].startswith(pre):
+                            last = f
+                    exp = base[k] if last is None else ref[last][k]
+                    if k not in st or not close(st[k], exp):
+                        wrong = (k, st.get(k), exp, last)
+                        break
+                if wrong:
+                    bad("member_state_not_from_last_factor",
+                        f"history (node, factor) {[(pre or '<root>', f) for pre, f in hist]}: {wrong[0]} = {wrong[1]}, the last factor "
+                        f"that reached it is {wrong[3]} which gives {wrong[2]}", wrong[0])
+                    break
+                p.state((nm, "targeted", tuple(sorted(st.items()))))
+            else:
+                continue
+            break
     p.evaluations += 1
     p.observe((nm, tuple(sorted((f, tuple(sorted(ref[f].items()))) for f in ref))))
 
